@@ -2,6 +2,7 @@ import GwModel.ScrubLemmas
 import GwModel.Gen.Facts
 import GwModel.ScrubApply
 import GwModel.PlanInject
+import GwModel.Middleware
 /-! # C04 — Responses hold exactly the requested keys; join ids never leak or vanish
 
 Proved on the model of the scrub-path computation (`Scrub`, mirroring generateScrubFields and generateScrubFieldsWalk and
@@ -17,7 +18,7 @@ open Scrub Facts
 
 def ScrubFactsSafe : Prop :=
   Gen.scrub.source = .ownOperation ∧ Gen.scrub.natural = .aliasIsId ∧ Gen.scrub.deletesField = true ∧
-  Gen.mw.scrubFirst = true
+  Gen.mw.scrubFirst = true ∧ Gen.mw.errorAborts = true
 
 instance : Decidable ScrubFactsSafe := by unfold ScrubFactsSafe; exact inferInstance
 
@@ -71,6 +72,14 @@ theorem every_id_the_planner_adds_is_at_a_join_point {env : Pl.Env} {fuel : Nat}
     (h : Pl.planOperation env fuel operation sels = .ok steps) :
     ∀ t ∈ steps, ∀ p, Pl.InjectedAt t.sel p → ∃ u ∈ steps, u.parent = some t.id ∧ u.ip = t.ip ++ p :=
   Pl.planOperation_injected_ids_are_join_points hns hu h
+
+/-- **a scrubber that cannot finish hands nothing back** (`Mw.execute`, the model of the tail of `Gateway.Execute`,
+    tied by the regenerated facts `mw.errorAborts` / `mw.returnsResultAndExecErr`): when the scrubber trips over a
+    place it cannot walk to — half of the listed places cleaned, half not — the data is dropped and only the error
+    is returned, whatever the executor had reported -/
+theorem a_scrubber_that_fails_hands_back_no_data {D E : Type} (scrub : Mw.RMw D E) (user : List (Mw.RMw D E))
+    (result : D) (ee : Option E) (e : E) (h : scrub.run result = .error e) :
+    Mw.execute scrub user result ee = ([scrub.id], none, some e) := Mw.execute_scrubber_fails scrub user result ee e h
 
 /-- non-vacuity: `{ me { firstName lastName } }` with `lastName` served elsewhere — the client's selection is
     unmarked, the step for A gets `me { firstName id }` and the step for B is inserted at [me] (step 0 is the
